@@ -379,6 +379,36 @@ func desugarClamps(p *Prog) int {
 				return nil
 			}
 			body := oneAssign(is.Body)
+			// --- reslice clamp: if len(Q) > K { Q = Q[:K] } is Q = Q[:min(K, len(Q))]
+			if body != nil && is.Else == nil && body.Tok == token.ASSIGN && len(body.Rhs) == 1 && path(body.Lhs[0]) {
+				if sl, ok := ast.Unparen(body.Rhs[0]).(*ast.SliceExpr); ok && sl.Low == nil && sl.High != nil && !sl.Slice3 && same(sl.X, body.Lhs[0]) {
+					isLen := func(e ast.Expr) bool {
+						call, ok := strip(e).(*ast.CallExpr)
+						if !ok || len(call.Args) != 1 {
+							return false
+						}
+						id, ok := call.Fun.(*ast.Ident)
+						return ok && id.Name == "len" && same(call.Args[0], body.Lhs[0])
+					}
+					var lenE, k ast.Expr
+					switch {
+					case (be.Op == token.GTR || be.Op == token.GEQ) && isLen(be.X):
+						lenE, k = be.X, be.Y
+					case (be.Op == token.LSS || be.Op == token.LEQ) && isLen(be.Y):
+						lenE, k = be.Y, be.X
+					}
+					if lenE != nil && same(k, sl.High) {
+						nsl := &ast.SliceExpr{X: sl.X, Lbrack: sl.Lbrack, High: builtin("min", is.Cond.Pos(), k, lenE, k), Rbrack: sl.Rbrack}
+						info.Types[nsl] = info.Types[sl]
+						as := &ast.AssignStmt{Lhs: []ast.Expr{body.Lhs[0]}, TokPos: body.TokPos, Tok: token.ASSIGN, Rhs: []ast.Expr{nsl}}
+						r := &repl{stmts: []ast.Stmt{as}}
+						if is.Init != nil {
+							r.stmts = append([]ast.Stmt{is.Init}, r.stmts...)
+						}
+						return r
+					}
+				}
+			}
 			// --- assignments
 			if body != nil && path(body.Lhs[0]) && intTyped(body.Lhs[0]) {
 				x := body.Lhs[0]
